@@ -33,7 +33,10 @@ EXTENDS Boolability
 (* Conditions (uniform records so that they travel through JSON)           *)
 (*   kind: isinstance issubclass typeis typeguard is eq in truthy boolcall *)
 (*         len c_isinstance c_isvalue not and or                           *)
-(*         m_value m_singleton m_class m_or  (patterns of `match x:`)      *)
+(*         m_value m_singleton m_class m_or m_seq (patterns of `match x:`) *)
+(*   m_seq: a sequence pattern of capture sub-patterns; n = number of      *)
+(*         non-star elements, op = "" (no star) or the index of the star   *)
+(*         element ("0", "1", "2"):  [a, *r, b] is n = 2, op = "1"         *)
 (*   neg : the operator is the negated one (is not, !=, not in)            *)
 (***************************************************************************)
 Cnd(kind, cls, lits, t, op, n, neg, subs) ==
@@ -54,6 +57,7 @@ CLegacyIsvalue(lit) == Cnd("c_isvalue", << >>, <<lit>>, Never, "", 0, FALSE, << 
 CMatchValue(lit) == Cnd("m_value", << >>, <<lit>>, Never, "", 0, FALSE, << >>)
 CMatchSingleton(lit) == Cnd("m_singleton", << >>, <<lit>>, Never, "", 0, FALSE, << >>)
 CMatchClass(c) == Cnd("m_class", <<c>>, << >>, Never, "", 0, FALSE, << >>)
+CMatchSeq(n, star) == Cnd("m_seq", << >>, << >>, Never, star, n, FALSE, << >>)
 CMatchOr(a, b) == Cnd("m_or", << >>, << >>, Never, "", 0, FALSE, <<a, b>>)
 CNot(a) == Cnd("not", << >>, << >>, Never, "", 0, FALSE, <<a>>)
 CAnd(a, b) == Cnd("and", << >>, << >>, Never, "", 0, FALSE, <<a, b>>)
@@ -85,6 +89,8 @@ HoldsCode(c, o) ==
       [] c.kind = "m_value" -> B2C(PyEq(o, c.lits[1]))              \* value pattern: subject == value
       [] c.kind = "m_singleton" -> B2C(PyIs(o, c.lits[1]))          \* None / True / False: subject is value
       [] c.kind = "m_or" -> B2C(\E i \in 1..Len(c.subs) : HoldsCode(c.subs[i], o) = 1)
+      \* sequence pattern: the subject is a Sequence other than str / bytes / bytearray whose length is n (>= n with a star)
+      [] c.kind = "m_seq" -> B2C(o.c \in {"list", "tuple"} /\ (IF c.op = "" THEN Len(o.items) = c.n ELSE Len(o.items) >= c.n))
       [] c.kind = "issubclass" -> IF o.c # "type" THEN 2 ELSE B2C(\E i \in 1..Len(c.cls) : IsSubclass(o.v, c.cls[i]))
       [] c.kind \in {"typeis", "typeguard"} -> B2C(Member(o, c.t))     \* the guard functions are written to test exactly their type
       [] c.kind \in {"is", "c_isvalue"} -> B2C(PyIs(o, c.lits[1]) # c.neg)
@@ -102,6 +108,7 @@ Tested(c) ==
     CASE c.kind \in {"isinstance", "c_isinstance", "m_class"} -> Union([i \in 1..Len(c.cls) |-> Typed(c.cls[i])])
       [] c.kind = "issubclass" -> Union([i \in 1..Len(c.cls) |-> SubclassT(Typed(c.cls[i]))])
       [] c.kind \in {"typeis", "typeguard"} -> c.t
+      [] c.kind = "m_seq" -> Typed("Sequence")      \* capture sub-patterns test only the shape: the class test is Sequence
       [] c.kind \in {"is", "eq", "in", "c_isvalue", "m_value", "m_singleton"} -> Union([i \in 1..Len(c.lits) |-> Known(c.lits[i])])
       [] c.kind \in {"not", "and", "or", "m_or"} -> Union([i \in 1..Len(c.subs) |-> Tested(c.subs[i])])
       [] OTHER -> Never
@@ -137,16 +144,27 @@ PEquals(lit, useis) == Pred("equals", Never, FALSE, <<lit>>, useis, "", 0, "", F
 PatternType(lits) == IF lits # << >> /\ \A i \in 1..Len(lits) : lits[i].c = lits[1].c THEN lits[1].c ELSE "object"
 PIn(lits) == Pred("in", Never, FALSE, lits, FALSE, "", 0, PatternType(lits), FALSE)
 PLen(op, n) == Pred("len", Never, FALSE, << >>, FALSE, op, n, "", FALSE)
+\* patma.py: IsAssignablePredicate(MatchableSequence, ...) -- MatchableSequence (patma.py:127) is Sequence annotated with
+\* Exclude[str | bytes | bytearray]; the marker ptype = "matchseq" stands for that annotation
+PMatchSeq(ponly) == Pred("assignable", Typed("Sequence"), ponly, << >>, FALSE, "", 0, "matchseq", FALSE)
+\* patma.LenPredicate(expected_length = n, has_star = useis)
+PSeqLen(n, star) == Pred("seqlen", Never, FALSE, << >>, star, "", n, "", FALSE)
+PAlways == Pred("always", Never, FALSE, << >>, FALSE, "", 0, "", FALSE)            \* patma.AlwaysMatching
 
 \* concrete constraint (stacked_scopes.py:278 Constraint): ct = constraint_type
-Con(ct, pos, pred, cls, lit, t, subs) == [ct |-> ct, pos |-> pos, pred |-> pred, cls |-> cls, lit |-> lit, t |-> t, subs |-> subs]
+\* var = the constrained variable: "x", or "none" for Constraint(varname=None, ...) (the constraints of the capture
+\* sub-patterns of a sequence pattern, made while match_subject is an unnamed element: patma.py:240 / :402)
+ConV(var, ct, pos, pred, cls, lit, t, subs) ==
+    [var |-> var, ct |-> ct, pos |-> pos, pred |-> pred, cls |-> cls, lit |-> lit, t |-> t, subs |-> subs]
+Con(ct, pos, pred, cls, lit, t, subs) == ConV("x", ct, pos, pred, cls, lit, t, subs)
+ConNoVar(pos, pred) == ConV("none", "predicate", pos, pred, "", NONE, Never, << >>)
 ConPredicate(pos, pred) == Con("predicate", pos, pred, "", NONE, Never, << >>)
 ConTruthy(pos) == Con("is_truthy", pos, NoPred, "", NONE, Never, << >>)
 ConIsInstance(pos, cls) == Con("is_instance", pos, NoPred, cls, NONE, Never, << >>)
 ConIsValue(pos, lit) == Con("is_value", pos, NoPred, "", lit, Never, << >>)
 ConValueObject(pos, t) == Con("is_value_object", pos, NoPred, "", NONE, t, << >>)
-ConOneOf(subs) == Con("one_of", TRUE, NoPred, "", NONE, Never, subs)
-ConAllOf(subs) == Con("all_of", TRUE, NoPred, "", NONE, Never, subs)
+ConOneOf(var, subs) == ConV(var, "one_of", TRUE, NoPred, "", NONE, Never, subs)
+ConAllOf(var, subs) == ConV(var, "all_of", TRUE, NoPred, "", NONE, Never, subs)
 
 \* abstract constraints
 NullCon == ConTruthy(TRUE)      \* placeholder in the con field of non-leaf abstract constraints
@@ -190,9 +208,15 @@ ImplApply(ac) ==
       [] ac.ak = "c" -> <<ac.con>>
       [] ac.ak \in {"and", "equiv"} -> Concat([i \in 1..Len(ac.cs) |-> ImplApply(ac.cs[i])])
       [] ac.ak = "or" ->                                                            \* OrConstraint.apply (:600)
+           \* the constraints of every alternative are grouped by variable; a variable constrained in the first
+           \* alternative and in all others gets a one_of constraint (alternatives with several constraints: all_of)
            LET groups == [i \in 1..Len(ac.cs) |-> ImplApply(ac.cs[i])]
-           IN IF \E i \in 1..Len(groups) : groups[i] = << >> THEN << >>
-              ELSE << ConOneOf([i \in 1..Len(groups) |-> IF Len(groups[i]) = 1 THEN groups[i][1] ELSE ConAllOf(groups[i])]) >>
+               Of(g, var) == SelectSeq(g, LAMBDA k : k.var = var)
+               leftvars == SelectSeq(<<"x", "none">>, LAMBDA var : Of(groups[1], var) # << >>)
+               shared == SelectSeq(leftvars, LAMBDA var : \A i \in 2..Len(groups) : Of(groups[i], var) # << >>)
+           IN [j \in 1..Len(shared) |->
+                 ConOneOf(shared[j], [i \in 1..Len(groups) |->
+                     LET g == Of(groups[i], shared[j]) IN IF Len(g) = 1 THEN g[1] ELSE ConAllOf(shared[j], g)])]
 
 (***************************************************************************)
 (* Impl: condition -> abstract constraint                                  *)
@@ -216,6 +240,12 @@ ImplOfCond(c) ==
       [] c.kind = "m_value" -> ACon(ConPredicate(TRUE, PEquals(c.lits[1], FALSE)))          \* patma.py:188 visit_MatchValue
       [] c.kind = "m_singleton" -> ACon(ConPredicate(TRUE, PEquals(c.lits[1], TRUE)))       \* patma.py:181 visit_MatchSingleton
       [] c.kind = "m_class" -> ACon(ConPredicate(TRUE, PAssignable(Typed(c.cls[1]), TRUE))) \* patma.py:300 visit_MatchClass (no sub-patterns: positive_only)
+      [] c.kind = "m_seq" ->                                                                \* patma.py:204 visit_MatchSequence
+           LET star == c.op # ""
+               total == c.n + (IF star THEN 1 ELSE 0)                                        \* len(node.patterns)
+           IN AndMake(<< ACon(ConPredicate(TRUE, PMatchSeq(total > 1 \/ ~star))),            \* :218 positive_only
+                         ACon(ConPredicate(TRUE, PSeqLen(c.n, star))) >>                     \* :225 LenPredicate
+                      \o [i \in 1..total |-> ACon(ConNoVar(TRUE, PAlways))])                 \* :243 capture / star sub-patterns
       [] c.kind = "m_or" -> OrMake([i \in 1..Len(c.subs) |-> ImplOfCond(c.subs[i])])        \* patma.py:391 visit_MatchOr
       [] c.kind = "not" -> ImplInvert(ImplOfCond(c.subs[1]))                                \* :3678 visit_UnaryOp
       [] c.kind = "and" -> AndMake(<<ImplOfCond(c.subs[2]), ImplOfCond(c.subs[1])>>)        \* :3463 (reversed(out_constraints))
@@ -260,9 +290,13 @@ ImplRemainder(v, pat) ==
          [] OTHER -> None
 
 \* IsAssignablePredicate.__call__ (predicates.py:59)
-ImplAssignablePred(pos, pat, ponly, rt, v) ==
+\* patma.Exclude.can_assign (patma.py:110): some non-Any member of the value is a str (bytes / bytearray are not in the universe)
+ImplExcludedStr(v) ==
+    LET ms == IF v.k = "union" THEN v.ms ELSE <<v>>
+    IN \E i \in 1..Len(ms) : ms[i].k # "any" /\ ImplCA(Typed("str"), ms[i], FALSE)
+ImplAssignablePred(pos, pat, ponly, rt, excl, v) ==
     LET compatible == ImplOverlapping(pat, v)
-        asg == ImplCA(pat, v, FALSE)
+        asg == ImplCA(pat, v, FALSE) /\ (excl => ~ImplExcludedStr(v))     \* AnnotatedValue.can_assign (value.py:2599)
         univ == ImplUniversal(v, pat)
     IN IF pos
        THEN IF ~compatible THEN None
@@ -316,8 +350,19 @@ ImplLenPred(pos, op, n, v) ==
     LET lv == ImplLenOfValue(v)
     IN IF lv.known /\ ~Cmp(lv.n, IF pos THEN op ELSE NegOp(op), n) THEN None ELSE Some(v)
 
+\* patma.LenPredicate.__call__ (patma.py:141)
+ImplSeqLenPred(pos, n, star, v) ==
+    LET lv == ImplLenOfValue(v)
+    IN IF lv.known
+       THEN (IF (IF star THEN lv.n >= n ELSE lv.n = n) = pos THEN Some(v) ELSE None)
+       ELSE IF ~star /\ v.k \in TypedFamily /\ v.c = "tuple"           \* :158 "Narrow Tuple[...] to a known length" (either polarity)
+       THEN Some(SeqT("tuple", [i \in 1..n |-> One(ImplOwnArgs(v)[1])]))
+       ELSE Some(v)
+
 ImplPred(pred, pos, v) ==
-    CASE pred.p = "assignable" -> ImplAssignablePred(pos, pred.pat, pred.ponly, pred.rt, v)
+    CASE pred.p = "assignable" -> ImplAssignablePred(pos, pred.pat, pred.ponly, pred.rt, pred.ptype = "matchseq", v)
+      [] pred.p = "seqlen" -> ImplSeqLenPred(pos, pred.n, pred.useis, v)
+      [] pred.p = "always" -> IF pos THEN Some(v) ELSE None                        \* patma.py:172 AlwaysMatching
       [] pred.p = "equals" -> ImplEqualsPred(pos, pred.lits[1], pred.useis, v)
       [] pred.p = "in" -> ImplInPred(pos, pred.lits, pred.ptype, v)
       [] pred.p = "len" -> ImplLenPred(pos, pred.op, pred.n, v)
@@ -373,6 +418,10 @@ ImplConstrain(V, cons) ==
 
 ImplNarrowAC(V, ac, pol) == ImplConstrain(V, ImplApply(IF pol THEN ac ELSE ImplInvert(ac)))
 ImplNarrow(V, c, pol) == ImplNarrowAC(V, ImplOfCond(c), pol)
+\* through the visitor the scope drops constraints without a variable (_add_single_constraint, stacked_scopes.py:1059)
+ImplNarrowVisitor(V, c, pol) ==
+    LET ac == ImplOfCond(c)
+    IN ImplConstrain(V, SelectSeq(ImplApply(IF pol THEN ac ELSE ImplInvert(ac)), LAMBDA k : k.var = "x"))
 
 (***************************************************************************)
 (* Known deviations of the current code (see known_findings.jsonl,         *)
@@ -474,7 +523,13 @@ OptionalEtc == {Union(<<Typed("int"), Known(NONE)>>), Union(<<Known(RED), Known(
                 Union(<<SeqT("tuple", <<One(Typed("int"))>>), SeqT("tuple", <<One(Typed("str")), One(Typed("int"))>>)>>),
                 Union(<<Typed("list"), Typed("tuple")>>), Union(<<SubclassT(Typed("int")), SubclassT(Typed("str"))>>),
                 Union(<<Generic("list", <<Typed("int")>>), Known(NONE)>>), Typed("complex"), Generic("Iterable", <<Typed("int")>>),
-                Known(F00), Known(I0), Known(BF), Known(SE)}
+                Known(F00), Known(I0), Known(BF), Known(SE),
+                \* subjects of sequence patterns
+                SeqT("tuple", <<One(Typed("int")), One(Typed("int")), One(Typed("int"))>>),
+                Union(<<SeqT("tuple", <<One(Typed("int"))>>), SeqT("tuple", <<One(Typed("int")), One(Typed("int")), One(Typed("int"))>>)>>),
+                Union(<<Generic("tuple", <<Typed("int")>>), SeqT("tuple", <<One(Typed("int")), One(Typed("str"))>>)>>),
+                Union(<<SeqT("tuple", <<One(Typed("int")), One(Typed("str"))>>), Generic("list", <<Typed("int")>>)>>),
+                Union(<<Generic("tuple", <<Typed("int")>>), Typed("str")>>), Generic("Sequence", <<Typed("int")>>), Typed("tuple"), Typed("list")}
 TinySpace == {Typed("int"), Typed("float"), Typed("bool"), Typed("object"), Typed("Color"), Typed("Iterable"), Known(NONE), Known(I1),
               Known(SA), AnyT, Never, SeqT("tuple", <<One(Typed("int")), One(Typed("str"))>>), Generic("list", <<Typed("int")>>),
               SubclassT(Typed("A")), Union(<<Typed("int"), Known(NONE)>>), Union(<<Typed("int"), Typed("str")>>),
@@ -544,9 +599,12 @@ MatchAtoms == {CMatchValue(l) : l \in {I0, I1, SA, RED, F15}} \cup {CMatchSingle
 MatchOrAtoms == {CMatchValue(I1), CMatchValue(SA), CMatchValue(RED), CMatchSingleton(NONE), CMatchSingleton(BT), CMatchClass("int"),
                  CMatchClass("str"), CMatchClass("tuple")}
 ChooseMatch == AtomStage /\ InAtomSpace /\ "match" \in NKinds /\ \E c \in MatchAtoms : Pick(c)
+SeqPatterns == {CMatchSeq(0, ""), CMatchSeq(1, ""), CMatchSeq(2, ""), CMatchSeq(3, ""), CMatchSeq(0, "0"), CMatchSeq(1, "0"),
+                CMatchSeq(1, "1"), CMatchSeq(2, "1"), CMatchSeq(2, "0"), CMatchSeq(2, "2")}
+ChooseMatchSeq == AtomStage /\ InAtomSpace /\ "matchseq" \in NKinds /\ \E c \in SeqPatterns : Pick(c)
 ChooseMatchOr == AtomStage /\ InCompoundSpace /\ "match" \in NKinds /\ \E a \in MatchOrAtoms, b \in MatchOrAtoms : a # b /\ Pick(CMatchOr(a, b))
 
-NNext == ChooseMatch \/ ChooseMatchOr \/ ChooseV \/ ChooseVCompound \/ ChooseIsinstance \/ ChooseIssubclass \/ ChooseTypeIs \/ ChooseTypeGuard \/ ChooseIs \/ ChooseEq \/ ChooseIn
+NNext == ChooseMatch \/ ChooseMatchSeq \/ ChooseMatchOr \/ ChooseV \/ ChooseVCompound \/ ChooseIsinstance \/ ChooseIssubclass \/ ChooseTypeIs \/ ChooseTypeGuard \/ ChooseIs \/ ChooseEq \/ ChooseIn
          \/ ChooseTruthy \/ ChooseLen \/ ChooseLegacyIsinstance \/ ChooseLegacyIsvalue \/ ChooseNot \/ ChooseAnd \/ ChooseOr \/ ChooseDeep
 
 NDone == stage = "done"
